@@ -49,10 +49,54 @@ def failure_case(rnd, which, at):
         return 'a failure in set %d after %d batches is lost: run() returned a result' % (which + 1, at)
     finally: scared.set_batch_size(None)
 
+def big_batch_case(n, bs):
+    """one accumulator, batches larger than any internal block size"""
+    import scared, estraces
+    scared.set_batch_size(bs)
+    try:
+        rng = np.random.default_rng(n); s1 = rng.integers(-100, 100, size=(n, 3)).astype('int8'); s2 = rng.integers(-100, 100, size=(n // 2 + 7, 3)).astype('int8')
+        an = scared.TTestAnalysis(precision='float64'); an.run(scared.TTestContainer(estraces.read_ths_from_ram(samples=s1), estraces.read_ths_from_ram(samples=s2)))
+        ref = welch_ref(s1, s2)
+        if not np.allclose(an.result, ref, rtol=1e-8, atol=1e-8, equal_nan=True): return 'Welch statistic wrong for %d / %d traces with batch size %s (max diff %r)' % (n, len(s2), bs, float(np.nanmax(np.abs(an.result - ref))))
+        return None
+    finally: scared.set_batch_size(None)
+
+_WARM = [False]
+def timed_failure_case(delay, which):
+    """one corrupted (NaN) trace in the second batch of set `which`, rejected by a preprocess that takes `delay` seconds per batch in BOTH threads;
+    the other set is long, so its accumulator is still running when the failure happens"""
+    import scared, estraces
+    scared.set_batch_size(100)
+    try:
+        rng = np.random.default_rng(5); sets = [rng.normal(0, 1, (300, 6)).astype('float32'), rng.normal(0.1, 1, (1200, 6)).astype('float32')]
+        if which == 1: sets = sets[::-1]
+        def mk(d):
+            def check_finite(traces):
+                if len(traces) > 1: time.sleep(d)
+                if not np.isfinite(traces).all(): raise ValueError('corrupted trace')
+                return traces
+            return scared.preprocess(check_finite)
+        if not _WARM[0]:      # numba warm-up outside the timed runs
+            scared.TTestAnalysis(precision='float64').run(scared.TTestContainer(estraces.read_ths_from_ram(samples=sets[0]), estraces.read_ths_from_ram(samples=sets[1]), preprocesses=[mk(0.0)])); _WARM[0] = True
+        bad = [x.copy() for x in sets]; bad[which][117, 3] = np.nan
+        an = scared.TTestAnalysis(precision='float64')
+        try: an.run(scared.TTestContainer(estraces.read_ths_from_ram(samples=bad[0]), estraces.read_ths_from_ram(samples=bad[1]), preprocesses=[mk(delay)]))
+        except Exception: return None
+        return 'a corrupted trace in the second batch of set %d (%.0f ms per batch) is lost while the other accumulator is still running: run() returned a result (processed %s)' % (which + 1, delay * 1000, [a_.processed_traces for a_ in an.accumulators])
+    finally: scared.set_batch_size(None)
+
 def replay(c):
     rnd = random.Random(4)
     try:
+        if c.get('kind') == 'update':
+            for n, bs in ((9000, None), (6500, 5000)):
+                r = big_batch_case(n, bs)
+                if r: return dict(reproduced=True, detail=r)
         if c.get('kind') == 'failure':
+            for which in (0, 1):
+                for delay in (0.03, 0.07, 0.11):
+                    r = timed_failure_case(delay, which)
+                    if r: return dict(reproduced=True, detail=r)
             for which in (0, 1):
                 for at in (0, 1, 3):
                     r = failure_case(rnd, which, at)
@@ -77,7 +121,18 @@ def bounded(seed, tier):
             try: r = failure_case(rnd, which, at)
             except Exception as e: r = 'raises %r' % (e,)
             if r: fails.append(dict(kind='failure', detail=r))
-    return dict(evaluations=ev, failures=len(fails), failing=fails[:5], bound='random pairs of trace sets (sizes 1..40, integer and float dtypes), batch sizes 1..50, 1-3 consecutive runs, frames, random per-batch delays in the threads, failures injected in either thread after 0..5 batches')
+    for n, bs in ((9000, None), (6500, 5000), (4100, 4099)):
+        ev += 1
+        try: r = big_batch_case(n, bs)
+        except Exception as e: r = 'raises %r' % (e,)
+        if r: fails.append(dict(kind='welch', detail=r))
+    for which in (0, 1):
+        for delay in ((0.03, 0.05, 0.07, 0.09, 0.11, 0.13) if tier == 'quick' else [0.03 + 0.005 * k for k in range(21)]):
+            ev += 1
+            try: r = timed_failure_case(delay, which)
+            except Exception as e: r = 'raises %r' % (e,)
+            if r: fails.append(dict(kind='failure', detail=r))
+    return dict(evaluations=ev, failures=len(fails), failing=fails[:5], bound='batches of 4100..9000 traces; failures timed against a still-running second accumulator (30..130 ms per batch); random pairs of trace sets (sizes 1..40, integer and float dtypes), batch sizes 1..50, 1-3 consecutive runs, frames, random per-batch delays in the threads, failures injected in either thread after 0..5 batches')
 
 if __name__ == '__main__':
     cmd = sys.argv[1]
